@@ -62,6 +62,10 @@ type C19Sc struct {
 	// such an item (a failed item, no operation handler), and that refusal is what the innermost stage receives from
 	// its continuation, every time it calls it: an optional element of the item does not take the chain away
 	CoreCritical bool `json:"core_critical,omitempty"`
+	// Rejected (batch-item chain): the request travels under a protocol version the executor does not support: 1 with
+	// an ordinary item, 2 with a lone Discover Versions item. The message-level core rejects such a request as a
+	// whole: no stage of the batch-item chain is entered, no handler runs, the answer is a failed item
+	Rejected int `json:"rejected,omitempty"`
 	// Option (server drivers): the Batch Error Continuation Option in the header of the (single-item) requests:
 	// 0 unset, 1 Continue, 2 Stop. With one item there is nothing to stop or continue: the chain runs the same
 	Option int `json:"option,omitempty"`
@@ -116,6 +120,9 @@ func genC19(g *simrt.Tape, tier string) any {
 	sc.Late = sc.Cut > 0 && sc.Driver != "client" && g.Draw(2) == 0
 	sc.CorePanic = sc.Driver == "server-item" && g.Draw(6) == 0
 	sc.CoreCritical = sc.Driver != "client" && !sc.CorePanic && g.Draw(6) == 0
+	if sc.Driver == "server-item" && !sc.CorePanic && !sc.CoreCritical && g.Draw(8) == 0 {
+		sc.Rejected = 1 + g.Draw(2)
+	}
 	if sc.Driver != "client" {
 		sc.Option = g.Draw(3)
 	}
@@ -192,6 +199,9 @@ func c19Floor(tier string) []*C19Sc {
 				out = append(out, &C19Sc{Driver: d, Stages: append([]StageSc{}, prefix...), Requests: 1, CorePanic: true})
 				out = append(out, &C19Sc{Driver: d, Stages: append([]StageSc{}, prefix...), Requests: 1, CorePanic: true, Option: 2})
 				out = append(out, &C19Sc{Driver: d, Stages: append([]StageSc{}, prefix...), Requests: 1, CoreCritical: true, Option: l % 3})
+				if d == "server-item" {
+					out = append(out, &C19Sc{Driver: d, Stages: append([]StageSc{}, prefix...), Requests: 1, Rejected: 1 + l%2})
+				}
 				out = append(out, &C19Sc{Driver: d, Stages: append([]StageSc{}, prefix...), Requests: 2, Option: 1 + l%2})
 			}
 			if l == maxLen {
@@ -449,6 +459,12 @@ func itemToken(bi *kmip.RequestBatchItem) string {
 		return p.UniqueIdentifier
 	case *payloads.RevokeRequestPayload:
 		return p.UniqueIdentifier
+	case *payloads.DestroyRequestPayload:
+		return p.UniqueIdentifier
+	case *payloads.ArchiveRequestPayload:
+		return p.UniqueIdentifier
+	case *payloads.RecoverRequestPayload:
+		return p.UniqueIdentifier
 	}
 	return "?"
 }
@@ -654,6 +670,12 @@ func execC19(x *X, scAny any) {
 		if sc.CoreCritical {
 			ext = "critical"
 		}
+		switch sc.Rejected {
+		case 1:
+			return buildRequest(&ReqSc{Version: 5, Option: sc.Option, Items: []ItemSc{{Tok: tok, NoID: true}}}, fmt.Sprintf("q%d", j))
+		case 2:
+			return buildRequest(&ReqSc{Version: 5, Option: sc.Option, Items: []ItemSc{{Op: "discover", Tok: "ok", NoID: true}}}, fmt.Sprintf("q%d", j))
+		}
 		return buildRequest(&ReqSc{Version: 4, Option: sc.Option, Items: []ItemSc{{Tok: tok, NoID: true, Ext: ext}}}, fmt.Sprintf("q%d", j))
 	}
 	reqName := func(j int) string { return fmt.Sprintf("q%d.0", j) }
@@ -839,6 +861,20 @@ func execC19(x *X, scAny any) {
 				cr.traces["__core__"+rq] = append(cr.traces["__core__"+rq], fmt.Sprintf("core ctx=%s msg=%s", ev.CtxMark, mm))
 			}
 		}
+	}
+	for j := 0; j < sc.Requests && sc.Rejected != 0; j++ {
+		name := reqName(j)
+		if got := cr.traces[name]; len(got) > 0 || len(cr.traces["__core__"+name]) > 0 {
+			x.Reportf("C19.chain-trace", "server-item:rejected-request-enters-chain", "request %s travels under an unsupported version and must be rejected as a whole, yet the batch-item chain ran: %s | core: %s", name, strings.Join(got, " | "), strings.Join(cr.traces["__core__"+name], " | "))
+			return
+		}
+		if !strings.HasPrefix(finals[name], "failed:") {
+			x.Reportf("C19.result-propagation", "server-item:rejected-request", "request %s travels under an unsupported version: outermost result %q, want a failed item (the batch-item chain was not entered, so whatever produced this ran outside it)", name, finals[name])
+			return
+		}
+	}
+	if sc.Rejected != 0 {
+		return
 	}
 	for j := 0; j < sc.Requests; j++ {
 		name := reqName(j)
